@@ -19,6 +19,9 @@ enum Op {
     Write(usize),
     Trigger,
     Tick,
+    /// reopen_output() with the file still in place (a SIGHUP handler that fires although the
+    /// external rotator had nothing to do): changes nothing about where the records are
+    Reopen,
 }
 
 #[derive(Clone, Debug)]
@@ -85,6 +88,7 @@ fn gen(rng: &mut Rng, dir: &Path, thorough: bool) -> Scenario {
         ops.push(match rng.below(10) {
             0 if rotation => Op::Trigger,
             1 => Op::Tick,
+            2 if rng.chance(1, 2) => Op::Reopen,
             _ => Op::Write(rng.usize(50)),
         });
     }
@@ -169,6 +173,9 @@ pub fn child_main(a: &ChildArgs) -> i32 {
                     let _ = driver.rotate();
                 }
                 Op::Tick => ctl::clock_advance(1_000_000_000),
+                Op::Reopen => {
+                    let _ = driver.reopen();
+                }
             }
         }
     } else {
